@@ -334,12 +334,28 @@ Proof.
   rewrite append_nil_r in R. exact R.
 Qed.
 
+Lemma has_nul_app a b : has_nul (a ++ b) = has_nul a || has_nul b.
+Proof. induction a as [|c a IH]; [reflexivity|]. simpl. rewrite IH. apply Bool.orb_assoc. Qed.
+
+Lemma has_nul_join l : nul_free l = true -> has_nul (join l) = false.
+Proof.
+  induction l as [|x r IH]; [reflexivity|]. intros H. cbn [nul_free forallb] in H.
+  apply andb_prop in H. destruct H as [Hx Hr]. apply negb_true_iff in Hx.
+  cbn [join]. rewrite !has_nul_app, Hx, (IH Hr). reflexivity.
+Qed.
+
+Lemma has_nul_req_path rs rt : nul_free rs = true -> has_nul (req_path [] rs rt) = false.
+Proof.
+  intros H. unfold req_path. cbn [app]. destruct rs as [|x r]; [reflexivity|].
+  rewrite has_nul_app, (has_nul_join _ H). destruct rt; reflexivity.
+Qed.
+
 (** The resources the file server answers for, in answer order, are exactly the
     nodes of the served tree in scope of (target, Depth) — every node of the
     tree is enumerated once by [all_nodes] ([all_nodes_nodup]) — each under an
     href naming it; a target that does not exist is refused with 404. *)
 Theorem scope_dav : forall t rs rt d,
-  tree_ok t = true -> segs_ok rs = true ->
+  tree_ok t = true -> segs_ok rs = true -> nul_free rs = true ->
   match dav_scope t (req_path [] rs rt) d with
   | Ok l => get t rs <> None /\
             exists hf, l = map (fun pn => (hf pn, snd pn)) (dav_expected t d rs) /\
@@ -348,7 +364,8 @@ Theorem scope_dav : forall t rs rt d,
   | Panic => False
   end.
 Proof.
-  intros t rs rt d OK Ors. unfold dav_scope.
+  intros t rs rt d OK Ors NN. unfold dav_scope.
+  rewrite (has_nul_req_path rs rt NN).
   rewrite (clean_abs rs rt Ors). cbn [negb].
   rewrite (rid_req_path [] rs rt eq_refl Ors). cbn [app].
   destruct (get t rs) as [n|] eqn:G; [|split; reflexivity].
@@ -373,10 +390,10 @@ Proof.
 Qed.
 
 Theorem dav_meets_spec : forall t rs rt ct bd dh,
-  tree_ok t = true -> segs_ok rs = true ->
+  tree_ok t = true -> segs_ok rs = true -> nul_free rs = true ->
   dav_spec t rs ct bd dh (observe (dav_model t (req_path [] rs rt) ct bd dh)) = true.
 Proof.
-  intros t rs rt ct bd dh OK Ors.
+  intros t rs rt ct bd dh OK Ors NN.
   pose proof (status_dav t (req_path [] rs rt) ct bd dh) as ST.
   unfold dav_spec, spec_answer, dav_model.
   apply andb_true_intro. split.
@@ -398,7 +415,7 @@ Proof.
       && all2 (fun e r => list_eqb String.eqb (rid (r_href r)) (fst e) && accounted_b pf (snd e) r)
               l (ob_responses (observe (dav_backend t (req_path [] rs rt) pf d)))
     end = true).
-  { intros d. pose proof (scope_dav t rs rt d OK Ors) as S. unfold dav_backend.
+  { intros d. pose proof (scope_dav t rs rt d OK Ors NN) as S. unfold dav_backend.
     destruct (dav_scope t (req_path [] rs rt) d) as [l|c|]; cbn [bind].
     - destruct S as [G [hf [-> RH]]].
       destruct (get t rs) as [n|]; [|congruence].
